@@ -118,7 +118,7 @@ def build_props(pid, timeout):
     return rc == 0, out, n_print, closed, sorted(set(axioms))
 
 
-FORBIDDEN = re.compile(r"^\s*(Admitted|Axiom|Axioms|Parameter|Parameters|Conjecture|Admit Obligations|Unset Guard Checking|"
+FORBIDDEN = re.compile(r"(?:^|\.\s+|^\s+)(?:Local\s+|Global\s+|#\[[^\]]*\]\s*)?(Admitted|Axiom|Axioms|Parameter|Parameters|Conjecture|Admit Obligations|Unset Guard Checking|"
                        r"Unset Positivity Checking|Unset Universe Checking|Local Unset Guard Checking)\b|\badmit\.|bypass_check|"
                        r"-type-in-type|-impredicative-set", re.M)
 
